@@ -4,6 +4,7 @@ import (
 	"bytes"
 	"encoding/binary"
 	"fmt"
+	"strings"
 	"reflect"
 
 	"github.com/hujm2023/go-sms-protocol/packet"
@@ -230,6 +231,14 @@ func init() {
 					if res["smgp.ParseOptions"] != res["smgp.ReadOptions"] {
 						c.Failf("parsers-disagree/smgp", "ParseOptions=%s ReadOptions=%s on %s", trunc200(res["smgp.ParseOptions"]), trunc200(res["smgp.ReadOptions"]), hx(b))
 					}
+					c.Echo("containers", func() string {
+						var sb strings.Builder
+						for _, p := range containerParsers() {
+							set, err := p.run(append([]byte(nil), b...))
+							fmt.Fprintf(&sb, "%s:err=%v|%016x;", p.name, err != nil, fw.HashStr(pdus.CanonTLV(set)))
+						}
+						return sb.String()
+					})
 					dup := "unique"
 					if len(pdus.CanonTLV(l)) != len(pdus.CanonTLV(append([]pdus.TLV(nil), l...))) || hasDup(l) {
 						dup = "duplicates"
